@@ -41,6 +41,10 @@ FilesQuick == FileCases(AllFormats, OnlyOff)
 FilesBig   == FileCases(AllFormats, Both)
 NoFiles    == {}
 
+MWNamesAll == {"", "X-Now"}
+SideAll    == {"off", "all", "warning", "error"}
+SideQuick  == {"all", "error"}
+
 MethodsQuick == {"GET", "POST", "PURGE"}
 MethodsBig   == {"GET", "POST", "HEAD", "PURGE"}
 URIsQuick    == {"/", "/a/b?x=1&y=%20z"}
